@@ -433,6 +433,8 @@ def _dataset_pt():
     return re.compile(prov.PASS_THROUGH.pattern[:-1] +
                       r"|^std::collections::hash_map::OccupiedEntry::<.*>::(get|get_mut|into_mut)$"
                       r"|^std::collections::hash_map::Entry::<.*>::(or_insert|or_insert_with|or_default)(::<.*>)?$"
+                      r"|^std::collections::(VecDeque|BTreeMap|HashMap)::<.*>::(get_mut|get|front_mut|back_mut|front|back|iter_mut|values_mut|range_mut|first_entry|last_entry)(::<.*>)?$"
+                      r"|^(core|std)::slice::<impl \[.*\]>::(get_mut|first_mut|last_mut|iter_mut|split_at_mut)(::<.*>)?$"
                       r"|^std::option::Option::<.*>::(map|as_deref_mut|filter)(::<.*>)?$)")
 
 
